@@ -363,7 +363,7 @@ def roundTrips (f : F64) (digits : Nat) (p : Int) : Bool :=
 
 /-- For `n = 1, 2, …` significant digits take the two neighbouring `n`-digit
 decimals; the first `n` for which one of them parses back to `f` wins; between
-two that do, the closer one (tie: even last digit).  Result: digits and the
+two that do, the closer one (an exact tie goes up, as `flt2dec` does).  Result: digits and the
 power of ten they are scaled by. -/
 def shortestDigits (f : F64) : Option (Nat × Int) :=
   match f.abs with
@@ -384,7 +384,7 @@ def shortestDigits (f : F64) : Option (Nat × Int) :=
           match closer num den lo hi p with
           | .lt => some (lo, p)
           | .gt => some (hi, p)
-          | .eq => if lo % 2 == 0 then some (lo, p) else some (hi, p)
+          | .eq => some (hi, p)   -- Rust's shortest-digit generation rounds an exact tie up
         else if okLo then some (lo, p)
         else if okHi then some (hi, p)
         else go fuel (n + 1)
